@@ -6,9 +6,9 @@ CONSTANTS
   MaxOps = 7
   MaxPuts = 4
   MaxRestarts = 1
-  LoseOpenOnRestart = TRUE
-  UseMemWhenOpen = TRUE
+  LoseOpenOnRestart = FALSE
+  UseMemWhenOpen = FALSE
   NamesFromAll = TRUE
-INVARIANTS NothingMoves
+INVARIANTS AnswerComplete
 VIEW View
 CHECK_DEADLOCK FALSE
